@@ -556,4 +556,27 @@ theorem class_file_exact (u : ClassUnit) (hok : u.ok) (st0 : FSt) (ids clzs : Li
     rw [this, s14, expectedExt, a1, a9, a10, a11, a12]
   · exact entries_all2 Matches (FnSpec.key u.pkg u.name) F.methodMap (specs u.members) hF.hkeys hF.hvals
 
+/-! ### non-vacuity: a concrete conventional unit meets the hypothesis, and the model run on it gives what the theorem says -/
+
+def demoUnit : ClassUnit :=
+  { pkg := "p", imports := ["q.T"], annos := [], name := "A", ext := some "T", impls := [],
+    members := [
+      .field [] (some "T") ["svc"] ⟨3, 4, 3, 12⟩,
+      .fn { isCtor := true, name := "A", ret := "", annos := [], params := [], l1 := 4, c1 := 11, l2 := 4, c2 := 16, pre := [], body := [] },
+      .fn { isCtor := false, name := "run", ret := "void", annos := [], params := [("T", "x")], l1 := 5, c1 := 16, l2 := 7, c2 := 4, pre := [],
+            body := [.formalParam "x" "T", .enterBlock, .call "svc" none "go" "go()" [] 6 12 6, .exitBlock] },
+      .fn { isCtor := false, name := "run", ret := "int", annos := [], params := [], l1 := 9, c1 := 15, l2 := 9, c2 := 22, pre := [], body := [] }] }
+
+example : demoUnit.ok := by
+  refine ⟨by decide, ?_, by decide⟩
+  intro s hs
+  simp only [demoUnit, specs, List.filterMap_cons, Member.spec?, List.filterMap_nil, List.mem_cons, List.not_mem_nil, or_false] at hs
+  rcases hs with rfl | rfl | rfl
+  · exact ⟨by decide, by simp⟩
+  · exact ⟨by decide, by simp [bodyEv]⟩
+  · exact ⟨by decide, by simp⟩
+
+-- the model, run on it from the empty state: one class entry with the constructor and the two overloads of `run` (a test, not a proof)
+#guard ((runFile {} [] [] "A.java" demoUnit.events).classNodes.map fun d => (d.node, d.fns.map (·.name))) == [("A", ["A", "run", "run"])]
+
 end CocaVerif.Props.C01
